@@ -58,6 +58,7 @@ type c14Case struct {
 	Type      int32  `json:"ty"`
 	Fork      int32  `json:"fork"`
 	Raft      bool   `json:"raft"`
+	Cons      string `json:"cons"` // consensus kind: "" (dpos, or raft when Raft is set) | "dpos" | "raft" | "sbp"
 	Public    bool   `json:"pub"`
 	AcctLen   int    `json:"acctlen"` // >0: replace Body.Account by that many bytes (unsigned path)
 	RcptRaw   string `json:"rcptraw"` // hex: replace Body.Recipient
@@ -411,13 +412,15 @@ func TestVerifC14Engine(t *testing.T) {
 			fmt.Fprintln(w, `{"skip":true}`)
 			continue
 		}
-		if c.Raft {
-			consensus.SetCurConsensus("raft")
-			types.InitGovernance("raft", c.Public)
-		} else {
-			consensus.SetCurConsensus("dpos")
-			types.InitGovernance("dpos", c.Public)
+		cons := c.Cons
+		if cons == "" {
+			cons = "dpos"
+			if c.Raft {
+				cons = "raft"
+			}
 		}
+		consensus.SetCurConsensus(cons)
+		types.InitGovernance(cons, c.Public)
 		pubNet = c.Public // chain.IsPublic(): executeTx validates REDEPLOY etc. against it
 		contract.PubNet = c.Public
 		bi := types.NewBlockHeaderInfoFromPrevBlock(g, 1000, types.DummyBlockVersionner(c.Fork))
@@ -438,7 +441,12 @@ func TestVerifC14Engine(t *testing.T) {
 		if c.Commit {
 			system.CommitParams(true)
 		}
-		exec := NewTxExecutor(context.Background(), c14ccc{}, cs.cdb, bi, contract.BlockFactory)
+		// only a raft chain has a cluster handle; the dpos and sbp block factories execute with a nil one
+		var ccc consensus.ChainConsensusCluster
+		if cons == "raft" {
+			ccc = c14ccc{}
+		}
+		exec := NewTxExecutor(context.Background(), ccc, cs.cdb, bi, contract.BlockFactory)
 		a := accts[c.Sender%nAcct]
 		payload, _ := base64.StdEncoding.DecodeString(c.Payload)
 		for i, ac := range accts { // "@A0".."@A3" stand for the engine's account addresses
